@@ -1,0 +1,19 @@
+//go:build !verif
+
+package download
+
+import (
+	"context"
+
+	"github.com/libp2p/go-libp2p/core/peer"
+)
+
+// No-op twins of the conformance-harness hooks (see verif_download_hooks.go, build tag "verif").
+
+func verifDlGate(p *Protocol, point string, height int64, ts tasks, task *taskInfo, err error) {}
+
+func verifDlCtx(p *Protocol, ctx context.Context, cancel context.CancelFunc, height int64, pid peer.ID) (context.Context, context.CancelFunc) {
+	return ctx, cancel
+}
+
+func verifDlNoSleep(p *Protocol) bool { return false }
